@@ -524,8 +524,16 @@ def verify_contract(qual, pid, timeout_ms=20000, cvc5_agree=False):
     except (Unsupported, source.SourceError) as e:
         out["status"] = "unsupported"
         out["error"] = str(e)
+        try:
+            # what was obliged before the statement outside the subset was met still stands (each obligation carries its own
+            # path condition): decided and reported next to the shape failure
+            out["results"] = discharge(ex, c.timeout_ms or timeout_ms, cvc5_agree=cvc5_agree)
+            out["notes"] = ex.notes
+            out["partial"] = True
+        except Exception:
+            out["results"] = []
     except Exception as e:
         out["status"] = "crash"
-        out["error"] = "%s: %s\n%s" % (type(e).__name__, e, traceback.format_exc()[-1500:])
+        out["error"] = "%s: %s\n%s" % (type(e).__name__, e, traceback.format_exc()[-int(os.environ.get("PYVC_TRACE_CHARS", "1500")):])
     out["wall"] = round(time.time() - t0, 3)
     return out
